@@ -10,6 +10,7 @@ import (
 	configapi "github.com/onosproject/onos-api/go/onos/config/v2"
 	"github.com/openconfig/gnmi/proto/gnmi"
 	"github.com/openconfig/gnmi/proto/gnmi_ext"
+	"google.golang.org/grpc/status"
 	gproto "google.golang.org/protobuf/proto"
 )
 
@@ -272,6 +273,7 @@ func checkC12(rc *RunCtx) *Report {
 					record("set", "Set "+desc, p, res.Done || p != "", map[string]interface{}{"kind": "c12-set", "desc": desc})
 				}
 				if res.Err == nil && res.Done {
+					rep.Sample(3, map[string]interface{}{"world": cw.name, "request": "Set " + desc, "outcome": "accepted", "reconcile_steps": res.Steps})
 					distinct.Add("set-accepted:" + desc)
 				} else {
 					distinct.Add("set-refused:" + fmt.Sprint(res.Code))
@@ -310,6 +312,9 @@ func checkC12(rc *RunCtx) *Report {
 				pan, ret := callUnder(func() { _, err = w.gnmi.Get(context.Background(), wire) })
 				record("get", "Get "+desc, pan, ret, map[string]interface{}{"kind": "c12-get", "desc": desc})
 				distinct.Add(fmt.Sprintf("get:%v", err == nil))
+				if err != nil {
+					rep.Sample(6, map[string]interface{}{"world": cw.name, "request": "Get " + desc, "outcome": status.Code(err).String()})
+				}
 			}
 			for _, pf := range prefixes {
 				for _, pa := range append(append([]c12Path{}, paths...), pathsNoTarget[2]) {
